@@ -232,7 +232,11 @@ def oracles(events, upto):
                 if m["k"] == "empty" and a in bk:
                     b = bk[a]
                     for v in range(m["lo"], m["hi"] + 1):
-                        if v in elems(b["needed"]) or v > b["max"] or any(p["v"] == v for p in b["partials"]):
+                        # a complete partial record that was applied (no seq rows left, no apply pending) is a held version
+                        pend = {pv for (pa, pv) in srv["pendApply"] if pa == a}
+                        part_open = any(p["v"] == v and ((set(range(0, p["last"] + 1)) - elems(p["seqs"])) or v in pend or any(r[0] == v for r in b["seqRows"]))
+                                        for p in b["partials"])
+                        if v in elems(b["needed"]) or v > b["max"] or part_open:
                             fails.append(("C05", "server %d declared version (%d,%d) empty although it needs it / holds it partially / it is beyond its head (event %d)" % (n, a, v, ev["i"])))
                         if any(c["site"] == a and c["dbv"] == v for c in srv["cells"]):
                             fails.append(("C05", "server %d declared version (%d,%d) empty although it has live changes (event %d)" % (n, a, v, ev["i"])))
@@ -249,6 +253,54 @@ def oracles(events, upto):
                             fails.append(("C05", "server sent a change outside its changeset's range (event %d)" % ev["i"]))
                         if (c["site"], c["dbv"], c["seq"], c["key"], c["cv"], c["val"]) not in written:
                             fails.append(("C05", "server sent a change nobody wrote (event %d)" % ev["i"]))
+        if op in ("serve", "probe"):
+            # C08 at the serving layer: the changesets answering a need for a version the server holds completely, with
+            # live changes, tile the requested sequence ranges (a need for whole versions: 0..=last) - no gap, no overlap,
+            # even where a requested range holds no live change any more
+            srv = ev["post"]
+            bk = {b["a"]: b for b in srv["book"]}
+            need = ev["op"]["need"]
+            a = need["a"]
+            own = (a == n)
+            b = bk.get(a)
+            if own or b is not None:
+                head = srv["own"]["max"] if own else b["max"]
+                needed = set() if own else elems(b["needed"])
+                pend2 = {pv for (pa, pv) in srv["pendApply"] if pa == a}
+                partial_vs = set() if own else {p["v"] for p in b["partials"]
+                                                if (set(range(0, p["last"] + 1)) - elems(p["seqs"])) or p["v"] in pend2 or any(r[0] == p["v"] for r in b["seqRows"])}
+                wanted = {}   # version -> requested seqs (None == the whole version)
+                if need["k"] == "full":
+                    for v in range(need["lo"], need["hi"] + 1):
+                        wanted[v] = None
+                else:
+                    wanted[need["v"]] = elems(need["seqs"])
+                for v, req in wanted.items():
+                    live = sorted(c["seq"] for c in srv["cells"] if c["site"] == a and c["dbv"] == v)
+                    if v > head or v in needed or v in partial_vs or not live:
+                        continue
+                    ms = [m for m in ev["created"] if m["k"] == "full" and m["v"] == v]
+                    if not ms and req is not None and not any(x <= max(live) for x in req):
+                        continue    # a range entirely beyond the last live change may lie beyond last_seq: nothing is owed
+                    if not ms:
+                        fails.append(("C05+C08", "server %d holds version (%d,%d) with live changes but produced no changeset for the need %s (event %d)" % (n, a, v, json.dumps(need), ev["i"])))
+                        continue
+                    last = ms[0]["last"]
+                    want = set(range(0, last + 1)) if req is None else {x for x in req if x <= last}
+                    got, overlap = set(), False
+                    for m in ms:
+                        r = set(range(m["lo"], m["hi"] + 1))
+                        if r & got:
+                            overlap = True
+                        got |= r
+                    got_in = {x for x in got if x <= last}
+                    if overlap:
+                        fails.append(("C05+C08", "the changesets server %d produced for version (%d,%d) overlap (event %d)" % (n, a, v, ev["i"])))
+                    if got_in != want:
+                        fails.append(("C05+C08", "the changesets server %d produced for version (%d,%d) cover seqs %s, the need asks for %s (event %d)" % (n, a, v, sorted(got_in), sorted(want), ev["i"])))
+                    sent = sorted(c["seq"] for m in ms for c in m["chs"])
+                    if sent != [x for x in live if x in want]:
+                        fails.append(("C05+C08", "server %d sent the changes at seqs %s of version (%d,%d), its live changes in the requested range are at %s (event %d)" % (n, sent, a, v, [x for x in live if x in want], ev["i"])))
         if op == "final":
             finals = ev["finals"]
             if not ev.get("quiescent"):
